@@ -19,7 +19,7 @@ Values (immutable tuples):
   ('it', kind, ...)        modelled iterator
   ('top',)                 unknown
 """
-import re, sys
+import re, os, time, sys
 from mirlib import view, cname, cpath
 from pathlib2 import lookup_callee
 
@@ -276,6 +276,7 @@ class Interp:
         self.memo = {}
         self.steps = 0
         self.budget = step_budget
+        self.deadline = None        # optional wall-clock limit (time.time() value) for the current root, set by the drivers
         self.unmodelled = {}
         self.visited = set()      # keys of functions whose body was executed at least once
         self.site_ok = {}         # (fn key, line) -> AND of the obligations recorded at that source line
@@ -426,6 +427,9 @@ class Interp:
                     d, l, path = v[1], v[2], v[3]
                 elif v[0] == "sl":
                     d, l, path = v[1], v[2], v[3] + (("off", v[4], v[5], v[6], v[7]),)
+                elif v[0] == "cref":
+                    r = self.intern_const(st, v[1])     # a reference to a constant: the constant lives in the root frame
+                    d, l, path = r[1], r[2], r[3]
                 else:
                     return None
             elif e[0] == "f":
@@ -545,7 +549,7 @@ class Interp:
     def intern_const(self, st, val):
         """constants that are taken by reference live in the root frame under a key derived from their value"""
         if val[0] == "cref":
-            val = self.intern_const(st, val[1])
+            val = self.intern_const(st, val[1])     # a reference to a reference (`&&T` constants): the inner referent is interned first
         key = ("k", hash(val))
         if key not in st.frames[0]:
             st.frames[0][key] = val
@@ -1071,6 +1075,8 @@ class Interp:
             self.steps += 1
             if self.steps > self.budget:
                 raise Budget("step budget exhausted")
+            if self.deadline is not None and (self.steps & 2047) == 0 and time.time() > self.deadline:
+                raise Budget("time budget exhausted")
             # loop header handling: count visits; switch to fixpoint mode when too many
             if cur in L and not (first_iter and start_idx):
                 c = visits.get(cur, 0) + 1
@@ -1230,6 +1236,8 @@ class Interp:
                                 vals |= set(range(a_, b_ + 1))
                             if len(set(rs)) > 1 and len(vals) <= 8:
                                 cand.append(l)
+                    if cand and join_at == stop:
+                        cand = []       # the join point is the end of this (arm) region: there is no continuation inside it to partition
                     if cand:
                         l0 = cand[0]
                         split = []
@@ -1244,6 +1252,12 @@ class Interp:
                         inner = [h for h, body in L.items() if join_at in body]
                         H = min(inner, key=lambda h: len(L[h])) if inner else None
                         target = H if H is not None else stop
+                        if stop is not None and stop != join_at and (H is None or stop in L[H]):
+                            # this region is itself an arm of an enclosing fork: its stop (the enclosing join point, which post-dominates
+                            # everything in the arm) comes before the loop header - the continuation must not run past it into the next iteration
+                            target = stop
+                        if os.environ.get("ABSINT_DEBUG_SPLIT"):
+                            print("SPLIT", fv.f["path"][-30:], "at", cur, "join", join_at, "H", H, "target", target, "stop", stop, "local", fv.locals[l0].get("name"), [small(o, l0) for o in outs][:6], "splits", loopctx.get("splits", 0), "named", {fv.locals[l].get("name"): show_val(v, 1)[:24] for l, v in outs[0].frames[depth].items() if isinstance(l, int) and fv.locals[l].get("name") in ("pos", "carry", "u64_idx", "bit_idx")})
                         ctx = dict(loopctx)
                         ctx["splits"] = loopctx.get("splits", 0) + 1
                         outs2 = []
@@ -1561,6 +1575,8 @@ class Interp:
             self.steps += 1
             if self.steps > self.budget:
                 raise Budget("step budget exhausted")
+            if self.deadline is not None and (self.steps & 2047) == 0 and time.time() > self.deadline:
+                raise Budget("time budget exhausted")
             frame = s.frames[depth]
             b = fv.blocks[cur]
             for stmt in b["s"]:
@@ -1677,6 +1693,8 @@ class Interp:
             self.steps += 1
             if self.steps > self.budget:
                 raise Budget("step budget exhausted")
+            if self.deadline is not None and (self.steps & 2047) == 0 and time.time() > self.deadline:
+                raise Budget("time budget exhausted")
             frame = s.frames[depth]
             b = fv.blocks[cur]
             for stmt in b["s"]:
